@@ -97,6 +97,13 @@ func (sim *Simulation) executeQueue(phase info.BattlePhase, next stateFn) (state
 	}
 
 	for !sim.Queue.IsEmpty() {
+		// a side may have been wiped out since the last exit check (by the action or the phase 1
+		// tick that ran before this queue): end the battle instead of executing inserts against
+		// an empty side
+		if len(sim.characters) == 0 || len(sim.enemies) == 0 {
+			return sim.exitCheck(next)
+		}
+
 		insert := sim.Queue.Pop()
 
 		// if source is dead, skip this insert (limbo okay for case of revives)
